@@ -165,3 +165,30 @@ Definition active_spec_b (specs : list sspec) (startup : Z) (sun : suntab) (now 
   (negb (existsb (fun s : sspec => negb (fst s)) specs)
    || existsb (fun s : sspec => negb (fst s) && in_window_spec (snd s) startup sun now) specs)
   && forallb (fun s : sspec => negb (fst s) || negb (in_window_spec (snd s) startup sun now)) specs.
+
+(* ---------- the same, as propositions ---------- *)
+Definition in_range (s e now : Z) : Prop :=
+  (s <= e /\ s <= now <= e) \/ (e < s /\ (s <= now \/ now <= e)).
+
+(* crontab(5): minute, hour and month must match; the day matches if both day fields match, except that when both are
+   restricted (neither is "*") either one suffices *)
+Definition cron_spec (c : cronspec) (now : Z) : Prop :=
+  let day := day_of now in
+  let tod := tod_of now in
+  In ((tod / MINUTE) mod 60) (c_min c) /\ In (tod / HOUR) (c_hour c) /\ In (month_of_day day) (c_mon c) /\
+  (if c_dom_star c || c_dow_star c
+   then In (dom_of_day day) (c_dom c) /\ In (dow_of_day day) (c_dow c)
+   else In (dom_of_day day) (c_dom c) \/ In (dow_of_day day) (c_dow c)).
+
+Definition in_window (w : window) (startup : Z) (sun : suntab) (now : Z) : Prop :=
+  match w with
+  | WRange a b => let s := resolve a startup sun now in in_range s (resolve b startup sun s) now
+  | WCron c => cron_spec c now
+  end.
+
+Definition active_spec (specs : list sspec) (startup : Z) (sun : suntab) (now : Z) : Prop :=
+  ((forall w, ~ In (false, w) specs) \/ (exists w, In (false, w) specs /\ in_window w startup sun now))
+  /\ (forall w, In (true, w) specs -> ~ in_window w startup sun now).
+
+(* a plain daily window "range(HH:MM:SS, HH:MM:SS)" *)
+Definition daily (ta tb : Z) : window := WRange (EDay DNone ta) (EDay DNone tb).
